@@ -36,7 +36,7 @@ func fieldOfDynamicCall(call ssa.CallInstruction) string {
 }
 
 func checkC17(c *Ctx, r *Report) {
-	r.Explain = "Decides structural necessary conditions of 'checkpoints never run ahead': (R1) the checkpointer's lists, lookup table, last checkpoint and revision ids are only touched under its lock and the `_` helpers — including the function that persists the checkpoints — are entered with it held, so the computation of a safe sequence and its persistence are one critical section; (R2) the persisted last_sequence derives only from the element of the expected list selected by the safe-prefix index, and the in-memory last checkpoint is updated only after both writes succeeded; (R3) the safe-prefix scan sorts by SequenceID.Before, advances only on the processed-hit edge and stops at the first miss, and list compaction removes an element only when it and its successor are processed; (R4) the replicators bind each registration callback to the matching checkpointer method, and when a pulled changes batch is handled the already-known sequences are reported only after the batch's expected sequences have been registered. Not decided: interleavings of registration and completion across concurrent batches, monotonicity of successive checkpoints as a whole."
+	r.Explain = "Decides structural necessary conditions of 'checkpoints never run ahead': (R1) the checkpointer's lists, lookup table, last checkpoint and revision ids are only touched under its lock and the `_` helpers — including the function that persists the checkpoints — are entered with it held, so the computation of a safe sequence and its persistence are one critical section; (R2) the persisted last_sequence derives only from the element of the expected list selected by the safe-prefix index, and the in-memory last checkpoint is updated only after both writes succeeded; (R3) the safe-prefix scan sorts by SequenceID.Before, advances only on the processed-hit edge and stops at the first miss, and list compaction removes an element only when it and its successor are processed; (R4) the replicators bind each registration callback to the matching checkpointer method, and when a pulled changes batch is handled the already-known sequences are reported only after the batch's expected sequences have been registered; (R5) a pulled revision is reported processed only on the success edge of its local write (or purge); (R6) a pushed revision is reported processed only after the peer's answer to it was received. Not decided: interleavings of registration and completion across concurrent batches, monotonicity of successive checkpoints as a whole."
 	la := newLockAnalysis(c, []string{"Checkpointer.lock"}, "db")
 	la.Solve()
 	r.Rule("C17-R1", "E1 guardedby", "Checkpointer{expectedSeqs,processedSeqs,idAndRevLookup,stats,lastCheckpointSeq,last*CheckpointRevID} accessed only under Checkpointer.lock; `_` helpers entered with it held", 25)
@@ -62,6 +62,8 @@ func checkC17(c *Ctx, r *Report) {
 	c17R2(c, r)
 	c17R3(c, r)
 	c17R4(c, r)
+	pullProcessedOnlyAfterWrite(c, r, "C17-R5")
+	c06R3For(c, r, "C17-R6")
 }
 
 func c17R2(c *Ctx, r *Report) {
